@@ -103,6 +103,11 @@ pub fn harness_natives(builder: &mut GlobalsBuilder) {
         Ok(eval.eval_function(f, &[], &[]).is_err())
     }
 
+    /// Host-side type API: `TypeCompiled::new(ty).matches(v)`.
+    fn type_matches<'v>(ty: Value<'v>, v: Value<'v>, heap: Heap<'v>) -> anyhow::Result<bool> {
+        Ok(starlark::values::typing::TypeCompiled::new(ty, heap)?.matches(v))
+    }
+
     /// Total tick count so far.
     fn tick_count(eval: &mut Evaluator) -> anyhow::Result<i32> {
         Ok(eval.get_total_tick_count() as i32)
